@@ -22,6 +22,8 @@ type genCase struct {
 	Spec   *gram.Spec      `json:"spec"`
 	Tags   gen.Tags        `json:"tags,omitempty"`
 	Shape  gen.ActionShape `json:"shape"`
+	// Renumber: named tokens are re-declared untagged with an explicit number on a later line
+	Renumber bool `json:"renumber,omitempty"`
 }
 
 func genDepth(w *Worker) int {
@@ -391,7 +393,7 @@ func genBatch(w *Worker, id string, cases []*genCase, name string) {
 	for i, c := range cases {
 		g := ref.FromSpec(c.Spec)
 		tags, shape := genTags(id, c)
-		d := gen.Decorate(c.Spec, tags, shape)
+		d := gen.DecorateOpt(c.Spec, tags, shape, c.Renumber)
 		o := &obs{c: c, g: g, d: d, runs: map[string][]*rt.Result{}, dumps: map[string][][]int{}, items: map[string]*gen.Item{}}
 		// the model comes from an in-process build of the same text
 		res := ygo.Build(d.Source(gen.Go, "model"), ygo.Options{Fuel: buildFuel})
@@ -403,6 +405,10 @@ func genBatch(w *Worker, id string, cases []*genCase, name string) {
 		if verr != nil {
 			w.Count("gen_skipped_front_end_mismatch", 1)
 			w.SetAdd("front_end_mismatch", verr.Error())
+			if id == "C17" {
+				w.Violate("C17|rules-differ-from-specification|"+c.Spec.Key(), fmt.Sprintf("grammar [%s]: the rule list yaccgo works on is not the rule list of the file (%s), so the trace names other rules than the ones reduced", c.Spec.Key(), verr.Error()),
+					&GCase{Origin: "gen", Extra: mustJSON(c)}, map[string]interface{}{"grammar_text": d.Source(gen.Go, "p")})
+			}
 			if id == "C07" {
 				// the action of rule i is emitted under case i: if yaccgo's rule list is not the file's, $n and $$ belong to another rule
 				w.Violate("C07|rules-differ-from-specification|"+c.Spec.Key(), fmt.Sprintf("grammar [%s]: the rule list yaccgo works on is not the rule list of the file (%s), so actions are attached to other rules than written", c.Spec.Key(), verr.Error()),
